@@ -397,9 +397,8 @@ func RowSetVerdict(rs *RowSet) (v Verdict, member func(k []byte) bool) {
 			if c > 0 {
 				return VErr, nil
 			}
-			if c == 0 && !(r.S.K == 2 && r.E.K == 2) {
-				v = VEither // empty range: rejected or contributes nothing
-			}
+			// c == 0 with an open end is an empty range: C03 counts empty ranges among the row sets whose union is
+			// served ("a range whose start EXCEEDS its end is rejected"), so it is accepted and contributes nothing
 		}
 	}
 	return v, func(k []byte) bool {
